@@ -8,6 +8,7 @@ import (
 	"go/token"
 	"os"
 	"path/filepath"
+	"reflect"
 	"sort"
 	"strings"
 )
@@ -408,6 +409,29 @@ func wholeBodyLocked(fd *ast.FuncDecl) bool {
 					return false
 				}
 			}
+			// a guard evaluated before the lock may look at the arguments only: a call through the receiver (a lookup in the
+			// cache, say) reads shared state outside the critical section
+			recvName := ""
+			if fd.Recv != nil && len(fd.Recv.List) > 0 && len(fd.Recv.List[0].Names) > 0 {
+				recvName = fd.Recv.List[0].Names[0].Name
+			}
+			guardTouches := false
+			for _, part := range []ast.Node{s.Init, s.Cond} {
+				if part == nil || (reflect.ValueOf(part).Kind() == reflect.Ptr && reflect.ValueOf(part).IsNil()) {
+					continue
+				}
+				ast.Inspect(part, func(x ast.Node) bool {
+					if c, ok := x.(*ast.CallExpr); ok {
+						if pp := selPath(c.Fun); len(pp) >= 2 && pp[0] == recvName {
+							guardTouches = true
+						}
+					}
+					return !guardTouches
+				})
+			}
+			if guardTouches {
+				return false
+			}
 		case *ast.AssignStmt, *ast.DeclStmt:
 			// nothing that touches the receiver's state may run before the lock is taken
 			recv := ""
@@ -754,6 +778,7 @@ func moreSections(repo string) string {
 		{"senderCounterPaired", "txListBySenderMap.removeSender decrements CountSenders iff the map's Remove reported a removal",
 			countersPaired(tx.funcs["txListBySenderMap.removeSender"], "Remove", []string{"Decrement"}, []string{"Get", "Has", "getListForSender"})},
 		{"unitGetSingleSection", "storageUnit.Unit.Get (cache lookup, persister read, cache refill) is ONE critical section of the unit lock", wholeBodyLocked(su.funcs["Unit.Get"])},
+		{"unitHasSingleSection", "storageUnit.Unit.Has (cache lookup, then persister lookup) is ONE critical section of the unit lock: it cannot observe the cache between Put's cache write and its rollback", wholeBodyLocked(su.funcs["Unit.Has"])},
 		{"unitPutSingleSection", "storageUnit.Unit.Put (cache write, persister write, undo) is ONE critical section of the unit lock", wholeBodyLocked(su.funcs["Unit.Put"])},
 		{"unitRemoveSingleSection", "storageUnit.Unit.Remove is ONE critical section of the unit lock", wholeBodyLocked(su.funcs["Unit.Remove"])},
 		{"adapterPutSingleSection", "storageCacherAdapter.Put (memory-tier write + persisting the victims) is ONE critical section of the adapter lock", wholeBodyLocked(ad.funcs["storageCacherAdapter.Put"])},
